@@ -39,7 +39,10 @@ func boolEq(a, b bool) bool { return nd.Or(nd.And(a, b), nd.And(nd.Not(a), nd.No
 func H_C02_enqueue() {
 	id := "C02.enqueue"
 	ps := shapeActor("shape")
-	pk := nd.Choice("pending", 4)
+	pk := nd.Choice("pending", 5)
+	if pk == 4 {
+		pk = 5 // bucket with an entry of another validator only
+	}
 	st := Build(ps, Opts{})
 	pendingUnbondings(st, pk) // existing buckets of the same delegator, possibly at the same completion time
 	e := st.E
